@@ -12,7 +12,7 @@ func main() {
 	livecheck.Main(livecheck.Plan{
 		ID:     "C11",
 		Oracle: livecheck.Oracle{Files: true},
-		Quick:  all, QuickBound: 1, QuickDeep: []string{"rd-unsafe-cf", "rd-partial-ucf-nomem-f1"}, QuickBudget: 60 * time.Second,
+		Quick:  all, QuickBound: 1, QuickDeep: []string{"rd-unsafe-cf"}, QuickBudget: 60 * time.Second,
 		Thorough: all, ThorBound: 2, ThorBudget: 15 * time.Minute,
 		Rule:        "(a) every schedule within the deviation bound of 8 scenarios (retention 1, 2, 3; held readers; eager merges) and of 3 scenarios in which every directory operation may additionally fail (transient / sticky I/O faults): after every storage operation of the recorded trace, once N snapshots were committed at least N snapshot files are loadable with all their segment files; no successful Remove hits a file the writer's root or a held reader refers to; every handle is closed exactly once and none is open, and the lock is free, after everything was closed; (b) every sequence of length <= 5 over {open W1, open W2, batch on W1, close W1, close W2, open reader} on the REAL FileSystemDirectory against a two-state lock model",
 		Explanation: "stateless exploration on the crashfs device for (a); explicit enumeration of operation sequences on the real directory for (b)",
